@@ -138,7 +138,26 @@ def check_weekday_decoding(ck, prog):
     bins = [(st["r"][1], [guards.const_int(o[1]) if o[0] == "k" else None for o in (st["r"][2], st["r"][3])]) for b in g.blocks for st in b["st"] if st["k"] == "=" and st["r"][0] == "bin"]
     shape = [(op.replace("WithOverflow", ""), cs[1]) for op, cs in bins if op.replace("WithOverflow", "") in ("Add", "Sub", "Rem")]
     ok3 = shape == [("Add", 7), ("Sub", None), ("Rem", 7)] or shape == [("Add", 7), ("Sub", 6), ("Rem", 7)]
-    ck.ob(R, "Weekday::num_days_from_sunday", ok3, g.loc(None), "" if ok3 else "num_days_from_sunday computes %r, expected (self + 7 - Sun) %% 7" % shape, how="(self + 7 - Sun) % 7")
+    how3 = "(self + 7 - Sun) % 7"
+    if not ok3 and not shape:
+        # the same function written as a table: one row per variant
+        names = {int(v.get("discr", i)): v["name"] for i, v in enumerate(adt["variants"])}
+        tab = {}
+        for conds, val in decision.const_table(g, prog):
+            lab = conds[-1][1] if conds else None
+            v = guards.const_int(val) if val else None
+            tab[names.get(lab, lab)] = v
+        want_tab = {"Sun": 0, "Mon": 1, "Tue": 2, "Wed": 3, "Thu": 4, "Fri": 5, "Sat": 6}
+        other = [k for k in tab if k not in want_tab]
+        # one arm may be the `otherwise` edge: it stands for the variant not listed
+        if len(other) == 1 and len(tab) == 7:
+            missing = [k for k in want_tab if k not in tab]
+            if len(missing) == 1:
+                tab[missing[0]] = tab.pop(other[0])
+        ok3 = tab == want_tab
+        how3 = "table %r" % tab
+        shape = tab
+    ck.ob(R, "Weekday::num_days_from_sunday", ok3, g.loc(None), "" if ok3 else "num_days_from_sunday computes %r, expected (self + 7 - Sun) %% 7 (Sun = 0 .. Sat = 6)" % (shape,), how=how3)
     h = prog.method(r"^ohkami_lib::time::Of$", "weekday")
     bins = [(st["r"][1], [guards.const_int(o[1]) if o[0] == "k" else None for o in (st["r"][2], st["r"][3])]) for b in h.blocks for st in b["st"] if st["k"] == "=" and st["r"][0] == "bin"]
     shape = sorted((op.replace("WithOverflow", ""), cs[1]) for op, cs in bins if op.replace("WithOverflow", "") in ("Shr", "BitAnd", "Add", "Sub", "Mul", "Shl", "BitOr", "Rem", "Div"))
@@ -151,7 +170,8 @@ def c20b(ck, prog):
     R = "C20-b BOUND"
     f = prog.method(r"^ohkami_lib::time::UTCDateTime$", "into_imf_fixdate")
     writes = {c.bb for c in f.calls_to(r"MaybeUninit::<T>::write$")}
-    ck.floor(R, "write sites in into_imf_fixdate", len(writes), 23)
+    # (the exact count per path is decided below against the buffer size; the floor only guards the anchor)
+    ck.floor(R, "write sites in into_imf_fixdate", len(writes), 8)
     try:
         lo, hi = bound.weight_range(f, lambda b: 1 if b in writes else 0)
     except bound.Unbounded as e:
@@ -256,6 +276,22 @@ def c20b_hex(ck, prog):
                         consts.append((st["r"][1].replace("WithOverflow", ""), guards.const_int(o[1])))
     le = sorted(v for op, v in consts if op == "Le")
     sub = sorted(v for op, v in consts if op == "Sub")
+    if not le and not sub:
+        # the digit map written as a table look-up: DIGITS[nibble] with DIGITS = "0123456789abcdef"
+        reads = []
+        for bi in sorted(c1.live_blocks()):
+            for st in c1.blocks[bi]["st"]:
+                if st["k"] == "=" and st["p"] == [0, []] and st["r"][0] == "use" and st["r"][1][0] in ("c", "m"):
+                    pl = st["r"][1][1]
+                    idx = [pr for pr in pl[1] if pr[0] == "i"]
+                    if idx:
+                        tabo = c1.origin([pl[0], []])
+                        tabs = tabo[-1][1].get("s") if tabo and tabo[-1][0] == "const" else None
+                        io = decision.describe_deep(c1, ["c", [idx[0][1], []]], 3)
+                        reads.append((tabs, io))
+        ok = len(reads) == 1 and reads[0][0] == "0123456789abcdef" and re.fullmatch(r"(cast\()?arg2(\))?( as usize)?", reads[0][1]) is not None
+        ck.ob(R, "hex:digit-table", ok, c1.loc(None), "" if ok else "the digit map reads %r, expected b\"0123456789abcdef\"[nibble] (canonical lowercase)" % (reads,), how="DIGITS[nibble], DIGITS = 0123456789abcdef (16 entries, nibble < 16 by hex:nibbles)")
+        return
     ok = le == [0, 9, 10, 15]
     ck.ob(R, "hex:ranges", ok, c1.loc(None), "" if ok else "the digit map tests ranges with bounds %r, expected 0..=9 and 10..=15 (the residual arm is unreachable for a nibble)" % le, how="arms 0..=9, 10..=15 cover every nibble")
     # offsets: b'0' - 0 and b'a' - 10
@@ -318,12 +354,14 @@ def c20c(ck, prog):
     value it was read with: no assignment to the index variable lies between the read and a use of the value read"""
     R = "C20-c ORDER table read"
     n = 0
+    total = 0
     for f in prog.fns.values():
         if f.crate != "ohkami_lib" or not f.key.startswith("ohkami_lib::time::"):
             continue
         reads = []
         for c in f.calls():
             if c.name in ("get_unchecked", "index", "get") and len(c.args) >= 2:
+                total += 1
                 st = f.origin(c.args[1])
                 if st and st[-1][0] == "multi" and not st[-1][2] and all(x[0] == "via" and (x[1][0].startswith("cast") or x[1][0] == "use") for x in st[:-1]):
                     reads.append((c, st[-1][1]))
@@ -361,7 +399,10 @@ def c20c(ck, prog):
                   "" if ok else "%s reads a table entry for `%s`, then assigns `%s` (%s), and afterwards still uses the entry read for the old value (%s): the day count is adjusted with the delta of the wrong year"
                   % (f.key, name, name, f.loc(f.blocks[stale[2]]["t"].get("sp")), f.loc(f.blocks[stale[0]]["t"].get("sp"))),
                   how="no assignment to `%s` between the read and the uses of the value read" % name)
-    ck.floor(R, "table reads indexed by a mutable variable", n, 1)
+    # the hazard exists only where the index is a re-assigned variable; code without one has no instance. The anchor is the
+    # set of table reads itself.
+    ck.floor(R, "table reads in ohkami_lib::time", total, 3)
+    ck.add_stat("table_reads_indexed_by_a_reassigned_variable", n)
 
 
 BITS = {"u8": 8, "i8": 8, "u16": 16, "i16": 16, "u32": 32, "i32": 32, "u64": 64, "i64": 64, "usize": 64, "isize": 64, "u128": 128, "i128": 128}
